@@ -55,7 +55,7 @@ def compare(obs, exp):
             if o is None or isinstance(o, bool):
                 return False
             d = abs(o - e)
-            if min(d, 360.0 - d) > 1e-9:
+            if not (0.0 <= o <= 360.0) or min(d, 360.0 - d) > 1e-9:
                 return False
         elif e is None:
             if o is not None:
